@@ -67,6 +67,15 @@ def run(ck):
                 nontrivial = any(p[2] != "good" for p in case["placements"]) or any(
                     f["kind"] != "none" for f in case["faults"].values())
             with ck.watchdog(180, "case %d" % i):
+                # the downloader's first guess of the segment size (1 MiB in production) below / at / above the real one:
+                # a wrong guess sends the first read of a fresh node through the retry paths
+                from allmydata.immutable.downloader.node import DownloadNode
+                saved_guess = DownloadNode.default_max_segment_size
+                real_seg = desc["segsize"] if forged else desc["case"]["segsize"]
+                DownloadNode.default_max_segment_size = rng.choice([saved_guess, 16, max(1, real_seg // 2), max(1, real_seg // 4),
+                                                                    real_seg, real_seg * 2 + 1])
+                if DownloadNode.default_max_segment_size < real_seg:
+                    ck.hit("segment-size-guess-below-the-real-size")
                 node = c.create_node_from_uri(cap)
                 history = []
                 failed_before = False
@@ -117,12 +126,19 @@ def run(ck):
                         nontrivial=nontrivial,
                         sample=dict(kind=desc["kind"], profile=profile, history=history[:2]))
         finally:
+            try:
+                from allmydata.immutable.downloader.node import DownloadNode
+                from allmydata.interfaces import DEFAULT_IMMUTABLE_MAX_SEGMENT_SIZE
+                DownloadNode.default_max_segment_size = DEFAULT_IMMUTABLE_MAX_SEGMENT_SIZE
+            except Exception:
+                pass
             if g is not None:
                 g.close()
         if ck.tier == "quick" and ck.evaluations >= 1500:
             break
     ck.require_monitor("termination-oracle")
-    ck.require_reach("completed-ok", "completed-err", "follow-up-after-failure", "connection-cut-between-segments")
+    ck.require_reach("completed-ok", "completed-err", "follow-up-after-failure", "connection-cut-between-segments",
+                     "segment-size-guess-below-the-real-size")
 
 
 def cut_between_segments(ck, rng, i, profile):
